@@ -133,6 +133,14 @@ PropC06h(e) == e.ev = "hostile" =>
                                   ELSE InsideText(e.text, e.warns[i].ln, e.warns[i].col)
   /\ (e.long \/ e.errs # <<>>) \/ (LET m == Model(e) IN m.errs = <<>> /\ Real(e).msgs = m.msgs)
 
+\* C05, every code point outside ASCII inside a literal: intervals of code points on which the real parser's outcome
+\* class is constant (the texts at their ends and middle are ordinary parse events, judged by PropC05 against the model).
+\* Inside a quoted string every one of them is an error; nowhere does a panic escape or a message come with an error.
+PropCp(e) == e.ev = "cpivl" =>
+  /\ e.a <= e.b /\ e.prevb < e.a /\ (e.prevb = 127 <=> e.a = 128) /\ e.b <= 1114111 /\ (e.final <=> e.b = 1114111)
+  /\ e.class \in {"error", "accepted"}
+  /\ e.ctx = "string" => e.class = "error"
+InvCp == l > 0 => PropCp(E)
 InvC06 == l > 0 => PropC06(E)
 InvC05 == l > 0 => PropC05(E)
 InvC15 == l > 0 => PropC15(E)
